@@ -11,6 +11,7 @@ accepts: any number of callers, partitions, batch settings, faults, retries, tim
 import KafkaVerif.Lemmas.WriterCalls
 import KafkaVerif.Lemmas.WriterMsgs
 import KafkaVerif.Gen.WriterConsts
+import KafkaVerif.Lemmas.WriterFirstCopy
 
 namespace KV.C07
 open KV KV.Writer
@@ -22,6 +23,41 @@ different batch precedes every copy of a later one — across retries, timer flu
 theorem order_preserved (cfg : Cfg) (s : State) (hr : Reachable cfg s) (tp : TP) :
     (s.log tp).Pairwise (fun x y => x.seq < y.seq ∨ x.batch = y.batch) :=
   (invOrd cfg s hr).logOrd tp
+
+/-- **inversion_is_a_repeated_copy** — what a reader of the partition log sees: whenever an entry y stands after an
+entry x although y was submitted before x, y is a repeated copy — the same message (same stamp) already stands in the
+log before x.  (A retry after a lost acknowledgement re-appends the whole batch in batch order; nothing else ever
+produces an inversion.) -/
+theorem inversion_is_a_repeated_copy (cfg : Cfg) (s : State) (hr : Reachable cfg s) (tp : TP)
+    (l1 : List LogEntry) (x : LogEntry) (l2 : List LogEntry) (hl : s.log tp = l1 ++ x :: l2)
+    (y : LogEntry) (hy : y ∈ l2) (hlt : y.seq < x.seq) :
+    ∃ y' ∈ l1, y'.seq = y.seq ∧ y'.msg = y.msg := by
+  have hO := invOrd cfg s hr
+  have hF := invFirst cfg s hr
+  have hp := hO.logOrd tp
+  rw [hl] at hp
+  have hxy : LogRel x y := by
+    have h2 := (List.pairwise_append.mp hp).2.1
+    exact (List.pairwise_cons.mp h2).1 y hy
+  have hb : x.batch = y.batch := by
+    rcases hxy with h | h
+    · exact absurd h (Nat.lt_asymm hlt)
+    · exact h
+  have hyin : y ∈ s.log tp := by rw [hl]; simp [hy]
+  obtain ⟨B, hB, m, hm, e1, e2⟩ := hF.entryIn tp y hyin
+  rw [← hb] at hB
+  obtain ⟨y', hy', h1, h2⟩ := hF.prefixCopy tp l1 x l2 hl B hB m hm (by rw [e1]; exact hlt)
+  exact ⟨y', hy', h1.trans e1, h2.trans e2⟩
+
+/-- **first_copies_in_submission_order** — dropping repeated copies, the log is in submission order: if the message of
+y does not occur before x, then y (standing after x) was not submitted before x. -/
+theorem first_copies_in_submission_order (cfg : Cfg) (s : State) (hr : Reachable cfg s) (tp : TP)
+    (l1 : List LogEntry) (x : LogEntry) (l2 : List LogEntry) (hl : s.log tp = l1 ++ x :: l2)
+    (y : LogEntry) (hy : y ∈ l2) (hfirst : ∀ y' ∈ l1, y'.msg ≠ y.msg) : x.seq ≤ y.seq := by
+  apply Nat.le_of_not_lt
+  intro hlt
+  obtain ⟨y', hy', -, hm⟩ := inversion_is_a_repeated_copy cfg s hr tp l1 x l2 hl y hy hlt
+  exact hfirst y' hy' hm
 
 /-- **batch_internal_order** — inside a batch the messages are in submission order (so each copy is, too). -/
 theorem batch_internal_order (cfg : Cfg) (s : State) (hr : Reachable cfg s) (b : Nat) (B : Batch)
@@ -157,7 +193,7 @@ theorem add_in_index_order (cfg : Cfg) (s s' : State) (pw b c i size : Nat)
   repeat' split at hs
   all_goals (first | (cases hs; done) | skip)
   rename_i _ P hP _ B hB _ C hC hg
-  obtain ⟨-, -, -, -, -, -, -, -, -, hassign, -, -, hall⟩ := hg
+  obtain ⟨-, -, -, -, -, -, -, -, -, hassign, -, -, hall, -⟩ := hg
   refine ⟨P, C, hP, hC, hassign, ?_⟩
   intro j hj hja
   rw [List.all_eq_true] at hall
